@@ -52,13 +52,42 @@ type program struct {
 
 type recorder struct {
 	mu sync.Mutex
-	b  *tv.Batch
+	b  *tv.Batch // observable trace (contract level)
+	hb *tv.Batch // hook-level trace (implementation level): the observable events plus every decision point passed
+}
+
+func cp(m tv.M) tv.M {
+	o := tv.M{}
+	for k, v := range m {
+		o[k] = v
+	}
+	return o
 }
 
 func (r *recorder) ev(name string, m tv.M) {
 	r.mu.Lock()
 	defer r.mu.Unlock()
+	if m == nil {
+		m = tv.M{}
+	}
+	if r.hb != nil {
+		r.hb.Ev(name, cp(m))
+	}
+	delete(m, "c")
 	r.b.Ev(name, m)
+}
+
+func (r *recorder) hook(point string, args []any) {
+	r.mu.Lock()
+	defer r.mu.Unlock()
+	if r.hb == nil {
+		return
+	}
+	m := tv.M{}
+	for i := 0; i+1 < len(args); i += 2 {
+		m[fmt.Sprint(args[i])] = args[i+1]
+	}
+	r.hb.Ev(point, m)
 }
 
 type result struct {
@@ -70,15 +99,19 @@ type result struct {
 }
 
 // runSchedule executes one program under one seeded schedule.
-func runSchedule(b *tv.Batch, prog program, seed int64, force []string) result {
+func runSchedule(b, hb *tv.Batch, prog program, seed int64, force []string) result {
 	rng := rand.New(rand.NewSource(seed))
 	clk := clocktesting.NewFakeClock(base)
-	rec := &recorder{b: b}
+	rec := &recorder{b: b, hb: hb}
 	tr := b.Start(tv.M{"prog": prog, "seed": seed})
+	if hb != nil {
+		hb.Start(tv.M{"seed": seed})
+	}
 	ctl := sched.New("*")
 	var hookTrace []string
 	ctl.OnEvent = func(point string, args []any) {
 		hookTrace = append(hookTrace, fmt.Sprint(point, args))
+		rec.hook(point, args)
 	}
 	queue.VerifHook = func(point string, kv ...any) { ctl.Point(point, kv...) }
 	defer func() { queue.VerifHook = nil }()
@@ -128,26 +161,26 @@ func runSchedule(b *tv.Batch, prog program, seed int64, force []string) result {
 					atTicks = 2_000_000_000
 				}
 				idmu.Unlock()
-				rec.ev("enq_call", tv.M{"id": it.id, "key": it.key, "at": atTicks})
+				rec.ev("enq_call", tv.M{"id": it.id, "key": it.key, "at": atTicks, "c": ci + 1})
 				c.cur = ctl.Go(fmt.Sprintf("c%d:enq", ci), func() {
 					proc.Enqueue(it)
-					rec.ev("enq_ret", tv.M{"id": it.id})
+					rec.ev("enq_ret", tv.M{"id": it.id, "c": ci + 1})
 				})
 			case "deq":
 				idmu.Lock()
 				nextDeq++
 				d := nextDeq
 				idmu.Unlock()
-				rec.ev("deq_call", tv.M{"d": d, "key": o.Key})
+				rec.ev("deq_call", tv.M{"d": d, "key": o.Key, "c": ci + 1})
 				c.cur = ctl.Go(fmt.Sprintf("c%d:deq", ci), func() {
 					proc.Dequeue(o.Key)
-					rec.ev("deq_ret", tv.M{"d": d})
+					rec.ev("deq_ret", tv.M{"d": d, "c": ci + 1})
 				})
 			case "close":
-				rec.ev("close_call", nil)
+				rec.ev("close_call", tv.M{"c": ci + 1})
 				c.cur = ctl.Go(fmt.Sprintf("c%d:close", ci), func() {
 					proc.Close()
-					rec.ev("close_ret", nil)
+					rec.ev("close_ret", tv.M{"c": ci + 1})
 				})
 			}
 		}
@@ -282,7 +315,7 @@ func TestCheck(t *testing.T) {
 	if !mc.OK {
 		e.Inconclusive("model check of Processor.tla did not pass: " + mc.What + "\n" + mc.Tail(2000))
 	}
-	live := tlc.Run(tlc.Opts{Dir: "Processor", Module: "MCProcessor", Config: "MC_live.cfg", Workers: 16, Timeout: 10 * time.Minute, HeapMB: 12000, Args: []string{"-noGenerateSpecTE"}})
+	live := tlc.Run(tlc.Opts{Dir: "Processor", Module: "MCProcessor", Config: ev.Pick("MC_live_small.cfg", "MC_live.cfg"), Workers: 16, Timeout: 10 * time.Minute, HeapMB: 12000, Args: []string{"-noGenerateSpecTE"}})
 	fmt.Printf("MC Processor liveness: ok=%v generated=%d distinct=%d wall=%s %s\n", live.OK, live.Generated, live.Distinct, live.Wall.Round(time.Millisecond), live.What)
 	if !live.OK {
 		e.Inconclusive("liveness model check of Processor.tla did not pass: " + live.What + "\n" + live.Tail(2000))
@@ -292,6 +325,7 @@ func TestCheck(t *testing.T) {
 	e.Set("checker_cmd", mc.Cmd)
 
 	b := &tv.Batch{}
+	hb := &tv.Batch{}
 	var results []result
 	var progs []program
 	// staged programs aimed at the loop's decision points, each under many schedules
@@ -312,7 +346,7 @@ func TestCheck(t *testing.T) {
 	nSchedPer := ev.Pick(3, 6)
 	inconcl := 0
 	run := func(p program, seed int64) {
-		r := runSchedule(b, p, seed, p.Prefix)
+		r := runSchedule(b, hb, p, seed, p.Prefix)
 		results = append(results, r)
 		progs = append(progs, p)
 		if r.err != nil {
@@ -363,6 +397,21 @@ func TestCheck(t *testing.T) {
 		i := idx[m]
 		key := classify(jb.TraceStrings(m))
 		e.Violation(key, "observable trace of the real Processor is not a behaviour of ProcContract", tv.M{"program": progs[i], "schedule": results[i].schedule, "hook_trace": results[i].hook, "trace": jb.TraceStrings(m)})
+	}
+	// binding of the implementation-shaped model: hook-level traces must be behaviours of Processor.tla (drift, not verdict)
+	jhb := &tv.Batch{}
+	for _, r := range results {
+		if r.err == nil {
+			jhb.AppendTrace(hb.Trace(r.trace))
+		}
+	}
+	hmissing, hres := tv.ValidateDone(tlc.Opts{Dir: "Processor", Module: "TraceProcImpl", Config: "TraceProcImpl.cfg", Workers: 16, Timeout: ev.Pick(6*time.Minute, 40*time.Minute), HeapMB: 12000}, jhb)
+	fmt.Printf("TLC model-binding validation (hook-level traces vs Processor.tla): ok=%v traces=%d not-explained=%d distinct=%d wall=%s %s\n", hres.OK, jhb.Len(), len(hmissing), hres.Distinct, hres.Wall.Round(time.Millisecond), hres.What)
+	e.Set("impl_traces_validated", int64(jhb.Len()))
+	e.Set("impl_drift_traces", int64(len(hmissing)))
+	e.Set("drift", len(hmissing) > 0 || !hres.OK)
+	if len(hmissing) > 0 {
+		fmt.Printf("DRIFT property=C06 %d hook-level traces are not behaviours of Processor.tla (model and code diverge; not a violation by itself), first: %v\n", len(hmissing), jhb.TraceStrings(hmissing[0]))
 	}
 	selfTest(e)
 }
